@@ -10,7 +10,7 @@
    all lost; [marked S]: exactly the last segment carries its own component as FinalBlockId. *)
 From NDN Require Import Base.Prelude Model.TlvVar Model.Name Model.SegFetch Spec.SegFetchSpec.
 From NDN Require Import Proofs.SegFetchBasics Proofs.SegFetchRefine Proofs.SegFetchHeadline Proofs.SegFetchMain
-  Proofs.SegFetchAny Proofs.ConstsSegFetchAgree.
+  Proofs.SegFetchAsks Proofs.SegFetchAny Proofs.ConstsSegFetchAgree.
 Local Open Scope nat_scope.
 
 (* the model computes the specification's [expected], for every scenario: any number of segments, any
@@ -82,6 +82,28 @@ Proof. exact (fetch_unmarked S cfg fuel k). Qed.
 Print Assumptions C19_unmarked_runs_to_timeout.
 Example C19_unmarked_nonvacuous : fetch 3 ex_cfg ex_scn_unmarked = ([[0]; [1]]%N, Raised XTimeout).
 Proof. exact ex_unmarked. Qed.
+
+(* the Interests the simulated producer observes are exactly those the specification lists … *)
+Theorem C19_interests_observed S cfg fuel :
+  wf_scenario S -> nseg (obj S) < fuel -> interests fuel cfg S = expected_asks S cfg.
+Proof. exact (fetch_asks S cfg fuel). Qed.
+Print Assumptions C19_interests_observed.
+
+(* … in particular, under bounded loss: the discovery Interest, then every needed segment in order,
+   each re-expressed once per loss, nothing skipped, nothing fetched twice *)
+Theorem C19_interests_in_order S cfg fuel k :
+  wf_scenario S -> disc S = DSeg k -> well_marked (obj S) -> nseg (obj S) < fuel ->
+  (forall k, needed S k -> tolerable_explicit S (retry_times cfg) k) ->
+  interests fuel cfg S =
+    asks_for S cfg KDisc (disc_req S cfg) ++
+    flat_map (fun t => asks_for S cfg (KSeg t) (seg_req S cfg t)) (seq (first_needed S) (nseg (obj S) - first_needed S)).
+Proof. exact (fetch_asks_in_order S cfg fuel k). Qed.
+Print Assumptions C19_interests_in_order.
+Example C19_interests_nonvacuous :
+  map rq_cbp (interests 4 ex_cfg ex_scn) = [true; true; false; false; false; false; false] /\
+  map (fun q => last (rq_name q) []) (interests 4 ex_cfg ex_scn) =
+    [[8; 1; 97]; [8; 1; 97]; seg_comp 0; seg_comp 0; seg_comp 0; seg_comp 1; seg_comp 2]%N.
+Proof. exact ex_interests. Qed.
 
 (* against ANY producer (arbitrary oracle, arbitrary names and markers in the answers): the retry
    discipline and the propagation of every exception other than a timeout *)
